@@ -34,6 +34,13 @@ TECHNIQUE = "machine-checked proof in Coq over a hand-written Gallina state-mach
 KEEPALIVE = []       # objects whose id() was recorded must stay alive
 
 
+def pl(x):
+    """copy of a list of points / a grid of points without per-element Python calls (the thorough tier traces every call)"""
+    if x and x[0] and isinstance(x[0][0], (list, tuple)):
+        return [[list(p) for p in row] for row in x]
+    return [list(p) for p in x]
+
+
 def quiet(fn, *a, **kw):
     with contextlib.redirect_stdout(io.StringIO()), warnings.catch_warnings():
         warnings.simplefilter("ignore")
@@ -84,7 +91,7 @@ def build_geom(df, partial=False):
     for d, p in enumerate(df["deg"]):
         set_dir(o, "degree", d, p)
     if df["cp"]:
-        o.set_ctrlpts(copy.deepcopy(df["cp"]), *df["size"])
+        o.set_ctrlpts(pl(df["cp"]), *df["size"])
     if partial:
         return o
     for d, U in enumerate(df["kv"]):
@@ -99,7 +106,7 @@ def read_def(o):
     return {"pdim": pd, "rat": bool(o.rational),
             "deg": [int(o.degree)] if pd == 1 else [int(x) for x in o.degree],
             "kv": [list(o.knotvector)] if pd == 1 else [list(k) for k in o.knotvector],
-            "cp": copy.deepcopy(o.ctrlptsw if o.rational else o.ctrlpts),
+            "cp": pl(o.ctrlptsw if o.rational else o.ctrlpts),
             "size": [int(x) for x in o.cpsize],
             "delta": [float(o.delta)] if pd == 1 else [float(x) for x in o.delta]}
 
@@ -127,7 +134,7 @@ def observe_geom(o, tess2=True):
     """all views in a fixed order: ctrlptsw, ctrlpts, weights, ctrlpts2d, bbox, evalpts, tessellation, tessellation(2)"""
     df = read_def(o)
     ob = {"def": df, "cpw": df["cp"]}
-    ob["cpts"] = call(lambda: copy.deepcopy(o.ctrlpts))
+    ob["cpts"] = call(lambda: pl(o.ctrlpts))
     ob["wts"] = call(lambda: (list(o.weights) if o.weights is not None else None))
     if df["pdim"] == 2:
         g = [[list(p) for p in row] for row in o.ctrlpts2d]
@@ -139,7 +146,7 @@ def observe_geom(o, tess2=True):
     ob["bbox"] = call(lambda: [list(x) for x in o.bbox]) if df["cp"] else {"ok": [[], []]}
     ob["with_eval"] = consistent(df)
     if ob["with_eval"]:
-        ob["eval"] = call(lambda: copy.deepcopy(o.evalpts))
+        ob["eval"] = call(lambda: pl(o.evalpts))
         ob["samples"] = [int(o.sample_size)] if df["pdim"] == 1 else [int(x) for x in o.sample_size]
         if df["pdim"] == 2:
             ob["tess"] = call(lambda: tess_view(o))
@@ -155,7 +162,7 @@ def observe_geom(o, tess2=True):
 def observe_cont(w, j):
     c = w.conts[j]
     ob = {"delta": [float(c.delta)] if c.pdimension == 1 else [float(x) for x in c.delta], "elems": list(w.celems[j]),
-          "eval": call(lambda: copy.deepcopy(c.evalpts))}
+          "eval": call(lambda: pl(c.evalpts))}
     ob["bbox"] = call(lambda: [list(x) for x in c.bbox]) if len(c) else {"ok": [[], []]}
     if c.pdimension == 2:
         def tv():
@@ -207,16 +214,16 @@ def apply_gop(o, op):
     elif t == "set_ctrlpts":
         if op[3] == "prop":
             if o.rational:
-                o.ctrlptsw = copy.deepcopy(op[1])
+                o.ctrlptsw = pl(op[1])
             else:
-                o.ctrlpts = copy.deepcopy(op[1])
+                o.ctrlpts = pl(op[1])
         elif op[3] == "2d":
             su, sv = op[2]
             o.ctrlpts2d = [[list(op[1][j + i * sv]) for j in range(sv)] for i in range(su)]
         else:
-            o.set_ctrlpts(copy.deepcopy(op[1]), *op[2])
+            o.set_ctrlpts(pl(op[1]), *op[2])
     elif t == "ctrlpts":
-        o.ctrlpts = copy.deepcopy(op[1])
+        o.ctrlpts = pl(op[1])
     elif t == "weights":
         o.weights = list(op[1])
     elif t == "delta":
@@ -257,15 +264,15 @@ def apply_gop(o, op):
         else:
             o.tessellate(vertex_spacing=op[1])
     elif t == "r_cpw":
-        return copy.deepcopy(o.ctrlptsw if o.rational else o.ctrlpts)
+        return pl(o.ctrlptsw if o.rational else o.ctrlpts)
     elif t == "r_cpts":
-        return copy.deepcopy(o.ctrlpts)
+        return pl(o.ctrlpts)
     elif t == "r_wts":
         return list(o.weights) if o.weights is not None else None
     elif t == "r_cp2d":
         return [[list(p) for p in row] for row in o.ctrlpts2d]
     elif t == "r_eval":
-        return copy.deepcopy(o.evalpts)
+        return pl(o.evalpts)
     elif t == "r_bbox":
         return [list(x) for x in o.bbox]
     elif t == "r_tess":
@@ -355,7 +362,7 @@ def apply_op(w, op):
         elif k == "scale":
             operations.scale(c, co[1], inplace=True)
         elif k == "r_eval":
-            return copy.deepcopy(c.evalpts)
+            return pl(c.evalpts)
         elif k == "r_bbox":
             return [list(x) for x in c.bbox]
         elif k == "r_tess":
@@ -399,6 +406,8 @@ def cmp_view(name, a, b):
     if "ok" not in a:
         return None
     x, y = a["ok"], b["ok"]
+    if x == y:
+        return None
     if name.startswith("tess"):
         if x[1] != y[1] or not gc.closel(x[0], y[0], 1e-10):
             return "%s: %d vertices / %d faces, a fresh object has %d / %d (or positions differ)" % (name, len(x[0]), len(x[1]), len(y[0]), len(y[1]))
@@ -419,7 +428,7 @@ def fresh_check_geom(ob, k_eff, label):
     except Exception as e:
         return None if not df["cp"] else "%s: a fresh object cannot be built from the definition (%s: %s)" % (label, type(e).__name__, e)
     fo = {}
-    fo["cpts"] = call(lambda: copy.deepcopy(f.ctrlpts))
+    fo["cpts"] = call(lambda: pl(f.ctrlpts))
     fo["wts"] = call(lambda: (list(f.weights) if f.weights is not None else None))
     fo["bbox"] = call(lambda: [list(x) for x in f.bbox]) if df["cp"] else {"ok": [[], []]}
     for v in ("cpts", "wts", "bbox"):
@@ -429,7 +438,7 @@ def fresh_check_geom(ob, k_eff, label):
     if df["pdim"] == 2 and ob["cp2d"] is not None:
         return "%s ctrlpts2d is not the [u][v] arrangement of the control points" % label
     if full:
-        m = cmp_view("evalpts", ob["eval"], call(lambda: copy.deepcopy(f.evalpts)))
+        m = cmp_view("evalpts", ob["eval"], call(lambda: pl(f.evalpts)))
         if m:
             return "%s %s" % (label, m)
         fs = [int(f.sample_size)] if df["pdim"] == 1 else [int(x) for x in f.sample_size]
@@ -458,7 +467,7 @@ def fresh_check_cont(w, j, ob, label):
         fc.delta = ob["delta"][0] if c.pdimension == 1 else ob["delta"]
     except Exception as e:
         return "%s: a fresh container cannot be built (%s: %s)" % (label, type(e).__name__, e)
-    m = cmp_view("container evalpts", ob["eval"], call(lambda: copy.deepcopy(fc.evalpts)))
+    m = cmp_view("container evalpts", ob["eval"], call(lambda: pl(fc.evalpts)))
     if m:
         return "%s %s" % (label, m)
     if len(c):
@@ -548,7 +557,7 @@ def check_prefix(ops, k, results, prev_gobs):
     last = ops[k - 1]
     msg, known = None, False
     # sharing between geometries (deep copies must be independent): before any view is read
-    rs = [reachable(g) for g in w.geoms]
+    rs = [reachable(g) for g in w.geoms] if (last[0] in ("new", "copy", "ccopy") or k == len(ops)) else []
     for a in range(len(rs)):
         for b in range(a + 1, len(rs)):
             common = [x for x in rs[a] if x in rs[b]]
@@ -936,7 +945,7 @@ def fill_reader(rng, o):
 class Hist(Family):
     name = "hist"
     imports = ("Model.Weights", "Model.Equal", "Model.Obj", "Model.ObjRun", "Run.ObjH")
-    count = {"quick": 66, "thorough": 240}
+    count = {"quick": 66, "thorough": 160}
     has_oracle = True
     timeout = 120
 
